@@ -158,6 +158,27 @@ theorem resumeOld_eq (cfg : Cfg K σ) (hc : CallInvariant cfg) (hi : IterInvaria
   have := a.trans b.symm
   exact ⟨congrArg Prod.fst this, congrArg Prod.snd this⟩
 
+/-- **resume with the SAME objects.**  Interrupt after `k` steps, then `trainer.fit(solver, ckpt_path=…)`
+    with the very Solver / condition objects that wrote the checkpoint of step `k`, on to step `N`: the whole
+    state — learnable tensors, optimizer and scheduler, counters, sampler positions — is that of the
+    uninterrupted `N`-step run.  No hypothesis on the conditions is needed (their positions are still there),
+    and nothing but `global_step` decides how many batches remain. -/
+theorem resume_same_objects (cfg : Cfg K σ) (sched : Nat → Bool) (sanity : Bool) (k N : Nat) (hk : k ≤ N)
+    (θ : List K) (o : σ) :
+    loop cfg sched (N - k)
+        (onTrainStart (restoreInto (solverRun cfg sched sanity k (fresh cfg θ o))
+                                   (save (solverRun cfg sched sanity k (fresh cfg θ o)))))
+      = solverRun cfg sched sanity N (fresh cfg θ o) := by
+  obtain ⟨hrun, hit⟩ := iteration_index cfg sched sanity k N hk θ o
+  obtain ⟨-, -, hkg, -⟩ := solver_eq_ref cfg sched sanity k θ o
+  have e : onTrainStart (restoreInto (solverRun cfg sched sanity k (fresh cfg θ o))
+      (save (solverRun cfg sched sanity k (fresh cfg θ o)))) = solverRun cfg sched sanity k (fresh cfg θ o) := by
+    generalize solverRun cfg sched sanity k (fresh cfg θ o) = S at hit hkg
+    cases S
+    simp only [onTrainStart, restoreInto, save] at *
+    rw [hit, hkg]
+  rw [e, ← hrun]
+
 /-! ### the weight-save callback -/
 
 theorem loop_gstep (cfg : Cfg K σ) (sched : Nat → Bool) : ∀ (n : Nat) (s : St K σ),
@@ -345,6 +366,16 @@ example : ((wsRun (probeSpec.toCfg plainSGD) 2 true true 6
   decide +kernel
 example : ((wsRun (twoBatchSpec.toCfg plainSGD) 1 true true 6
     (fresh (twoBatchSpec.toCfg plainSGD) twoBatchSpec.θ0 (twoBatchSpec.opt0 plainSGD))).2.min.map (·.1)) = some 1 := by
+  decide +kernel
+
+/-- with the SAME objects even the two-batch set-up resumes exactly (contrast `resume_not_exact_two_batches`) -/
+example :
+    (loop (twoBatchSpec.toCfg plainSGD) (fun _ => false) 1
+      (onTrainStart (restoreInto
+        (solverRun (twoBatchSpec.toCfg plainSGD) (fun _ => false) false 1
+          (fresh (twoBatchSpec.toCfg plainSGD) twoBatchSpec.θ0 (twoBatchSpec.opt0 plainSGD)))
+        (save (solverRun (twoBatchSpec.toCfg plainSGD) (fun _ => false) false 1
+          (fresh (twoBatchSpec.toCfg plainSGD) twoBatchSpec.θ0 (twoBatchSpec.opt0 plainSGD))))))).θ = [-1/8] := by
   decide +kernel
 
 end TPV.Train
